@@ -79,6 +79,7 @@ func cmdGen(args []string) {
 	filter := fs.String("types", "", "regexp on type names")
 	out := fs.String("out", "cases.ndjson", "output")
 	startID := fs.Int("startid", 1, "first case id")
+	startK := fs.Int("startk", 0, "first value number per type (0 default, 1 ones, 2 full, 3.. random): 3 = random values only")
 	fs.Parse(args)
 	tab, err := sszreg.LoadTable(*schemas)
 	if err != nil {
@@ -112,7 +113,7 @@ func cmdGen(args []string) {
 			continue
 		}
 		r := rand.New(rand.NewSource(*seed*1000003 + int64(ti)*7919))
-		for k := 0; k < *per; k++ {
+		for k := *startK; k < *startK+*per; k++ {
 			g := &sszreg.Gen{R: r, Budget: *budget}
 			mode := "random"
 			switch k {
